@@ -12,12 +12,19 @@
 (*   Variant = "truncates"         WithKeyTypes accepts codes above 65535  *)
 (*                                 and Build writes them modulo 65536      *)
 (*                                 (the pinned tree's behaviour)           *)
+(*   Variant = "shares-scratch"    the key-type payload is written into a  *)
+(*                                 scratch buffer of the builder and the   *)
+(*                                 certificate handed out refers to it     *)
+(* Certificates handed out by Build are KEPT (variable kept): each is      *)
+(* either a value of its own or - in the scratch variant - a reference to  *)
+(* the builder's buffer; KeptUnchanged says that what was handed out still *)
+(* reads as it did when it was handed out, whatever is called afterwards.  *)
 (***************************************************************************)
 EXTENDS Objects, TLC
 CONSTANTS Kind, Variant
 
 (************************ implementation-shaped builder ********************)
-ImplInit == [certType |-> CertNull, payload |-> << >>, payloadSet |-> FALSE, ktSet |-> FALSE, st |-> 0, ct |-> 0]
+ImplInit == [certType |-> CertNull, payload |-> << >>, payloadSet |-> FALSE, ktSet |-> FALSE, st |-> 0, ct |-> 0, scratch |-> << >>]
 ImplKeyPayload(i) == BE16(i.st % 65536) \o BE16(i.ct % 65536)
 \* Build(): Validate, buildPayloadIfNeeded (which stores the generated payload), NewCertificateWithType
 ImplBuild(i) ==
@@ -49,22 +56,33 @@ FixedCalls == { [m |-> "SetBytes", b |-> b] : b \in { << >>, << 1 >>, << 1, 2 >>
 MValsCalls == { [m |-> "Add", k |-> k, v |-> v] : k \in { << >>, << 97 >>, << 98 >> }, v \in { << >>, << 120 >> } }
 RInfoCalls == { [m |-> "AddAddress", a |-> a] : a \in { << 1 >>, << 2, 2 >> } }
 
-VARIABLES obj, impl, steps
-vars == << obj, impl, steps >>
+VARIABLES obj, impl, steps, kept
+vars == << obj, impl, steps, kept >>
+\* the state of the implementation after Build has run (the scratch variant writes the generated payload into the builder's own buffer)
+ImplAfterBuild(i) == LET j == ImplBuild(i).i IN
+  IF Variant = "shares-scratch" /\ ~i.payloadSet /\ i.ktSet THEN [j EXCEPT !.scratch = ImplKeyPayload(i)] ELSE j
+\* what Build hands out: the payload as a value of its own, or a reference to the scratch buffer
+HandOut(i) == LET b == ImplBuild(i) IN
+  IF ~b.ok THEN << >>
+  ELSE << [ref |-> Variant = "shares-scratch" /\ ~i.payloadSet /\ i.ktSet, val |-> b.ser, was |-> b.ser, typ |-> b.i.certType] >>
+ReadKept(k, i) == IF k.ref THEN SerCert(k.typ, i.scratch) ELSE k.val
 Init == /\ obj = CASE Kind = "builder" -> BuilderInit [] Kind = "fixed" -> FixedInit(2) [] Kind = "mvals" -> MValsInit
                    [] OTHER -> RInfoInit(<< 7 >>, 7, << 0 >>, << >>, 0, << >>, << 5 >>)
-        /\ impl = ImplInit /\ steps = 0
+        /\ impl = ImplInit /\ steps = 0 /\ kept = << >>
 Calls == CASE Kind = "builder" -> BuilderCalls [] Kind = "fixed" -> FixedCalls [] Kind = "mvals" -> MValsCalls [] OTHER -> RInfoCalls
 Next == /\ steps < 6
         /\ \E c \in Calls :
              /\ obj' = ObjStep(obj, c).s
-             /\ impl' = IF Kind = "builder" THEN ImplStep(impl, c) ELSE impl
+             /\ impl' = IF Kind = "builder" THEN (IF c.m = "Build" THEN ImplAfterBuild(impl) ELSE ImplStep(impl, c)) ELSE impl
+             /\ kept' = IF Kind = "builder" /\ c.m = "Build" /\ Len(kept) < 2 THEN kept \o HandOut(impl) ELSE kept
         /\ steps' = steps + 1
 
 \* refinement: the implementation shape and the contract answer Build() alike in every reachable state
 BuilderRefines == Kind = "builder" => LET b == ImplBuild(impl) IN b.ok = BuilderObs(obj).ok /\ (b.ok => b.ser = BuilderObs(obj).ser)
 \* Build is idempotent and does not disturb what later calls see
 BuildIdempotent == Kind = "builder" => LET b == ImplBuild(impl)  b2 == ImplBuild(b.i) IN b2.ok = b.ok /\ b2.ser = b.ser
+\* what Build handed out earlier still reads as it did then
+KeptUnchanged == \A k \in 1..Len(kept) : ReadKept(kept[k], impl) = kept[k].was
 \* a KEY certificate produced from key types states exactly those types
 KeyTypesHonoured == (Kind = "builder" /\ obj.src = "keytypes" /\ BuilderObs(obj).ok /\ obj.typ = CertKey)
                       => BuilderObs(obj).ser = SerCert(CertKey, KeyCertPayload(obj.st, obj.ct))
